@@ -186,6 +186,20 @@ func runC11(c *core.Ctx) {
 		c.Begin(kind, "Clear")
 		d.C.Clear()
 		c.Count("state:used-then-cleared", 1)
+	case state == 2:
+		// a second generation: used (a ring often to the brim), cleared, used again
+		d.build(c, r.Range(1, 20))
+		if d.Cap > 0 && r.Bool() {
+			for d.C.Size() < d.Cap {
+				d.Grow(c)
+			}
+		}
+		c.Begin(kind, "Clear")
+		d.C.Clear()
+		for k := r.Range(1, 8); k > 0; k-- {
+			d.Grow(c)
+		}
+		c.Count("state:cleared-then-refilled", 1)
 	default:
 		d.build(c, r.Range(1, 40))
 		if d.Cap > 0 {
@@ -332,6 +346,7 @@ func init() {
 			f.atLeast("obs:lockstep-drain", 2000)
 			f.atLeast("state:never-used", 500)
 			f.atLeast("state:used-then-cleared", 500)
+			f.atLeast("state:cleared-then-refilled", 500)
 			f.atLeast("state:ring-full", 50)
 			f.atLeast("state:ring-partial", 50)
 			return f.missing
